@@ -426,6 +426,10 @@ func Field() *Set {
 	m("String", func(ex *absint.Exec, c *absint.CallCtx) (absint.Val, bool) {
 		return sym.App(sym.Bytes, "hex", ToBytes(sym.Fp, loadAbs(ex, c, 0, sym.Fp))), true
 	})
+	fn("NewElementFrom", func(ex *absint.Exec, c *absint.CallCtx) (absint.Val, bool) {
+		// a fresh element holding the operand's value
+		return ex.AllocAbs(ElementType, FieldPkg, "Element", loadAbs(ex, c, 0, sym.Fp)), true
+	})
 	fn("NewElementFromUint64", func(ex *absint.Exec, c *absint.CallCtx) (absint.Val, bool) {
 		l := termArg(ex, c, 0)
 		var t *sym.Term
